@@ -359,13 +359,12 @@ class ImplicitFuncComp(ImplicitComponent):
             Value of input or state variable.
         """
         inps = inputs.values()
-        outs = outputs.values()
 
         for name, meta in self._apply_nonlinear_func._inputs.items():
             if 'is_option' in meta:  # it's an option
                 yield self.options[name]
             elif 'resid' in meta:  # it's a state
-                yield next(outs)
+                yield outputs[name]
             else:
                 yield next(inps)
 
